@@ -551,6 +551,98 @@ pub fn all() -> Vec<Scn> {
         let l = std::net::TcpListener::bind("127.0.0.1:0").unwrap();
         e.port = l.local_addr().unwrap().port();
     }));
+    v.push(
+        scn("TcpStream::connect_with_timeout(dead-port)", |e| mk(TcpStream::connect_with_timeout(&loopback(e.port), Duration::from_millis(300)), fd_of)).init(|e| {
+            let l = std::net::TcpListener::bind("127.0.0.1:0").unwrap();
+            e.port = l.local_addr().unwrap().port();
+        }),
+    );
+    v.push(
+        // a listener whose accept queue is full drops further SYNs: the connect stays in progress and the ppoll really times out
+        scn("TcpStream::connect_with_timeout(backlog-full)", |e| mk(TcpStream::connect_with_timeout(&loopback(e.port), Duration::from_millis(30)), fd_of)).init(|e| unsafe {
+            let l = libc::socket(libc::AF_INET, libc::SOCK_STREAM | libc::SOCK_CLOEXEC, 0);
+            let mut sa: libc::sockaddr_in = std::mem::zeroed();
+            sa.sin_family = libc::AF_INET as u16;
+            sa.sin_addr.s_addr = u32::from_ne_bytes([127, 0, 0, 1]);
+            assert_eq!(0, libc::bind(l, &sa as *const _ as *const libc::sockaddr, std::mem::size_of::<libc::sockaddr_in>() as u32));
+            assert_eq!(0, libc::listen(l, 0));
+            let mut len = std::mem::size_of::<libc::sockaddr_in>() as u32;
+            libc::getsockname(l, &mut sa as *mut _ as *mut libc::sockaddr, &mut len);
+            e.port = u16::from_be(sa.sin_port);
+            e.aux.push(l);
+            for _ in 0..4 {
+                let c = libc::socket(libc::AF_INET, libc::SOCK_STREAM | libc::SOCK_CLOEXEC | libc::SOCK_NONBLOCK, 0);
+                libc::connect(c, &sa as *const _ as *const libc::sockaddr, std::mem::size_of::<libc::sockaddr_in>() as u32);
+                e.aux.push(c);
+            }
+            libc::usleep(20_000);
+        }),
+    );
+    // stream operations on a descriptor the value already owns: they create nothing, and must neither close nor lose it
+    v.push(
+        scn("UnixListener::accept+UnixStream::read+write", |e| {
+            let l = e.ul.as_mut().unwrap();
+            let r = (|| -> tiny_std::Result<UnixStream> {
+                use tiny_std::io::{Read, Write};
+                let mut s = l.accept()?;
+                let mut b = [0u8; 16];
+                s.read(&mut b)?;
+                s.write(b"pong")?;
+                Ok(s)
+            })();
+            mk(r, fd_of)
+        })
+        .init(tiny_unix_listener)
+        .prep(|e| {
+            use std::io::Write;
+            let mut c = std::os::unix::net::UnixStream::connect(e.path("acc.sock")).expect("client connect");
+            c.write_all(b"ping").unwrap();
+            e.clients.push(Box::new(c));
+        })
+        .clean(drain_tiny),
+    );
+    v.push(
+        scn("TcpListener::accept+TcpStream::read_with_timeout+write", |e| {
+            let l = e.tl.as_mut().unwrap();
+            let r = (|| -> tiny_std::Result<TcpStream> {
+                use tiny_std::io::Write;
+                let mut s = l.accept()?;
+                let mut b = [0u8; 16];
+                s.read_with_timeout(&mut b, Duration::from_millis(200))?;
+                s.write(b"pong")?;
+                Ok(s)
+            })();
+            mk(r, fd_of)
+        })
+        .init(tiny_tcp_listener)
+        .prep(|e| {
+            use std::io::Write;
+            let mut c = std::net::TcpStream::connect(("127.0.0.1", e.port)).expect("tcp client connect");
+            c.write_all(b"ping").unwrap();
+            e.clients.push(Box::new(c));
+            wait_pending(peek(e.tl.as_ref().unwrap())[0]);
+            unsafe { libc::usleep(2000) };
+        })
+        .clean(drain_tiny),
+    );
+    v.push(
+        scn("TcpListener::accept+TcpStream::read_with_timeout(nothing-sent)", |e| {
+            let l = e.tl.as_mut().unwrap();
+            let r = (|| -> tiny_std::Result<TcpStream> {
+                let mut s = l.accept()?;
+                let mut b = [0u8; 16];
+                s.read_with_timeout(&mut b, Duration::from_millis(5))?;
+                Ok(s)
+            })();
+            mk(r, fd_of)
+        })
+        .init(tiny_tcp_listener)
+        .prep(|e| {
+            tcp_client(e);
+            wait_pending(peek(e.tl.as_ref().unwrap())[0]);
+        })
+        .clean(drain_tiny),
+    );
     let try_fds = |t: &TcpTryConnect| fd_from_debug(&format!("{t:?}"));
     v.push(scn("TcpStream::try_connect", move |e| mk(TcpStream::try_connect(&loopback(e.port)), try_fds)).init(std_tcp_listener).clean(drain_std_tcp));
     v.push(
